@@ -35,6 +35,11 @@ func scenarioBound(group, tier string) int {
 			return 3
 		}
 		return 2
+	case "nested": // f(g(path)): short bodies
+		if tier == "thorough" {
+			return 3
+		}
+		return 2
 	case "expr2": // representatives of each stateful query type
 		if tier == "thorough" {
 			return 3
@@ -303,7 +308,7 @@ func init() {
 		}
 		return firstLine(string(out)), false, nil
 	})
-	c05groups := map[string]bool{"expr": true, "closure": true, "closurepred": true, "three": true, "regex": true, "pool": true, "pool3": true, "expr2": true}
+	c05groups := map[string]bool{"expr": true, "closure": true, "closurepred": true, "three": true, "regex": true, "pool": true, "pool3": true, "expr2": true, "nested": true}
 	explore.Register(&explore.Property{
 		ID: "C05", Level: "model_checking",
 		Rule: "explorer C: for every scenario (2 threads, thorough also 3, sharing ONE compiled expression with their own navigators on different context nodes, over ~110 expressions covering every query-node type and every function closure; concurrent Compile of expressions with constant matches() patterns against a small RegexpCache; string-building functions sharing the builder pool) EVERY interleaving up to the preemption bound (quick: 1 for plain paths and regex-compile bodies, 2 for closures and pool; thorough: 2, and 3 for closures and pool) is executed under a cooperative scheduler with a scheduling point before every statement of package xpath (AST instrumentation via go build -overlay) and at every lock/pool operation (blocking modelled, pool made a deterministic shared LIFO); oracle per execution: every thread observes exactly what the same call observes alone on a fresh compile; deadlock and invariant checks at every point; the default schedule is replayed twice and must give identical traces. Separately the same scenario bodies run free under `-race` (20 runs each). states/transitions = scheduling points executed, traces = executions; non-trivial/distinct = scenarios explored",
